@@ -66,11 +66,15 @@ func raceCases(what string, r *rng, n int) []string {
 			cs = append(cs, genFutHist(r))
 		}
 	}
+	iters := n * 400
+	if iters > 40000 {
+		iters = 40000 // the whole child has to finish well within the harness watchdog
+	}
 	switch what {
 	case "future-done-window":
-		cs = append(cs, fmt.Sprintf("wit future-done-after-deref %d", n*400))
+		cs = append(cs, fmt.Sprintf("wit future-done-after-deref %d", iters))
 	case "future-cancel-window":
-		cs = append(cs, fmt.Sprintf("wit future-cancel-after-delivery %d", n*400))
+		cs = append(cs, fmt.Sprintf("wit future-cancel-after-delivery %d", iters))
 	}
 	return cs
 }
@@ -150,9 +154,9 @@ func runRace(f []string) string {
 	go func() { done <- cmd.Wait() }()
 	select {
 	case <-done:
-	case <-time.After(15 * time.Second):
+	case <-time.After(8 * time.Second):
 		cmd.Process.Kill()
-		return "HANG\t!stress under the race detector did not finish"
+		return "BLOCKED\t!stress under the race detector did not finish"
 	}
 	obs, _ := os.ReadFile(obsFile)
 	caseLines := strings.Split(string(mustRead(cases)), "\n")
